@@ -444,6 +444,15 @@ package cache
 //@ func boundRequestTo
 //@   assert at call (*middleware.ResponseMeta).BoundCutFor#1: arg1 == expires && arg2 == 0
 //@
+//@ # C04 (alias chases inherit the shortest part): every hop's sub-query hands back ITS OWN lineage - the forked cut of
+//@ # that sub-query, the deriving request's meta as parent, and NOT YET inherited - so each hop's bound is folded in
+//@ # (a lineage carried over from an earlier hop would already be marked inherited and its fold would be skipped)
+//@ func (*Cache).internalExchange
+//@   abstract
+//@   nosafety all pre
+//@   assert at return#2: !result1.inherited && result1.parent == lastret("middleware.ResponseMetaFrom") && result1.child == lastret("middleware.WithForkedCut", 1)
+//@   assert at call (middleware.Queryer).Query#1: arg1 == lastret("middleware.WithForkedCut") && arg2 == req
+//@
 //@ func (*subQueryLineage).inherit
 //@   abstract
 //@   nosafety all pre
